@@ -3,6 +3,7 @@ pub mod gateway;
 pub mod gas;
 pub mod tm;
 pub mod gov;
+pub mod its;
 
 use crate::rng::Rng;
 use crate::Sink;
@@ -15,6 +16,7 @@ pub fn generate(prop: &str, rng: &mut Rng, n: usize, sink: &mut Sink) {
         "C15" => gas::gen(rng, n, sink),
         "C09" | "C10" => tm::gen(rng, n, sink, prop),
         "C11" | "C12" | "C16" => gov::gen(rng, n, sink, prop),
+        "C04" | "C05" | "C08" | "C13" | "C14" | "C17" | "C18" | "C19" | "C20" => its::gen(rng, n, sink, prop),
         "C11F3" => gov::scenario_f3(rng, sink, false),
         "C12F3" => gov::scenario_f3(rng, sink, true),
         _ => panic!("no generator for {prop}"),
